@@ -30,6 +30,8 @@ names, nested .gitignore files, back-dated writes, the root named in seven ways 
 directory (`cache_real.spell_root`), and the three observation points (scan_command, the CLI entry function,
 `python -m codelimit scan`); (9) files that become unreadable (dangling / looping symbolic links, mode 000) after they
 were cached: the from-scratch scan of a copy WITH the unreadable entry is the oracle, "both abort" is an equal outcome.
+(10) every cache-rejection reason (foreign version in 4 classes with differently measured entries and 3 key spellings, 9 kinds of
+damage) x every file-name class (awkward, canonically equivalent pairs, Pygments names, unsupported), oracle-only.
 (3) the version guard covers every option of report / findings that reads a report file (`report --diff <file>` in
 both formats, through report_command and the CLI entry function) with documents of every version class, damaged and
 missing files, on both sides."""
@@ -325,6 +327,11 @@ def gen_named_history(rnd, maxlen=20):
     have = set(n for n, _ in files)
     ops = []
     for _ in range(rnd.randint(4, maxlen)):
+        if rnd.random() < 0.06:
+            # the cache replaced by one of another version (entries measured differently, keys in one of three spellings) / damaged
+            ops.append(["cv", rnd.choice(FOREIGN_V), rnd.choice([1, 1000]), rnd.randrange(len(cr.KEY_SPELLINGS))]
+                       if rnd.random() < 0.7 else ["cdmg", rnd.randrange(len(cr.DAMAGE_KINDS))])
+            continue
         r = rnd.random()
         if r < 0.27:
             ops.append(["s"])
@@ -396,9 +403,65 @@ def unreadable_histories(thorough, rnd):
     return out
 
 
+FOREIGN_V = (2, 0, 3, 4)          # cache_real.VERS: another release, key absent, current + suffix, a number
+
+
+def rejection_reasons():
+    """every reason for which a cache on disk must not be used: written by another version (4 version classes x 3
+    spellings of the file keys, every entry measured differently) and damaged (cache_real.DAMAGE_KINDS)"""
+    out = [["cv", v, 1000 if (v + k) % 2 else 1, k] for v in FOREIGN_V for k in range(len(cr.KEY_SPELLINGS))]
+    return out + [["cdmg", k] for k in range(len(cr.DAMAGE_KINDS))]
+
+
+def name_classes(thorough, rnd):
+    """[(name class, [file names of one tree])]: every awkward name (backslash, quote, tab, pattern characters ...), both
+    spellings of every canonically equivalent pair, names Pygments maps to a supported language (quick: a sample), names
+    of no supported language"""
+    from gen import names
+    exts = [".py", ".js", ".c", ".h", ".cpp", ".ts", ".java", ".cs"]
+    out = []
+    for i, ext in enumerate(exts if thorough else [rnd.choice(exts)]):
+        for j, n in enumerate(names.awkward_names(ext)):
+            out.append(("awkward", [n]))
+        for pair in names.unicode_twins(ext):
+            out.append(("canonically equivalent pair", list(pair)))
+    out.append(("awkward", names.awkward_names(rnd.choice(exts))))           # all of them in one folder
+    ln = [fn for fn, _ in lang_names()]
+    for fn in (ln if thorough else rnd.sample(ln, 10)):
+        out.append(("Pygments", [fn]))
+    for fn in (other_names() if thorough else rnd.sample(other_names(), 2)):
+        out.append(("no supported language", [fn]))
+    return out
+
+
+def rejection_histories(thorough, rnd):
+    """stream (10): every cache-rejection reason x every name class.  A tree of the named file(s) in a folder, a file
+    with a Pygments name in another folder and one in the root is scanned; then, per reason in a random order: the
+    cache is replaced (foreign version with differently measured entries / damaged), scan (must analyse every file and
+    equal the from-scratch scan), scan (reuse).  Every fourth tree is edited between the reasons."""
+    ln = [fn for fn, _ in lang_names()]
+    out = []
+    for i, (cls, fns) in enumerate(name_classes(thorough, rnd)):
+        folder = DIRS_N[i % 3]
+        nb = rnd.choice([x for x in ln if x not in fns])
+        files = [[folder + fn, 100 + (i + j) % 19] for j, fn in enumerate(fns)]
+        files += [[("lib/" if folder != "lib/" else "src/deep/") + nb, 100 + (i + 7) % 19], ["keep.py", 100 + (i + 3) % 19]]
+        reasons = rejection_reasons()
+        rnd.shuffle(reasons)
+        ops = [["s"]]
+        for j, r in enumerate(reasons):
+            if i % 4 == 3 and j % 3 == 1:
+                ops.append(["w", files[j % len(files)][0], 100 + (i + j) % 19])
+            ops += [r, ["s"]] + ([["s"]] if j % 2 == 0 or thorough else [])
+        out.append({"named": 1, "kind": "cache-rejection", "name_class": cls, "files": files, "cfg": i % cr.CFGS,
+                    "entry": 1 if i % 16 == 15 else 0, "ops": ops})
+    return out
+
+
 def named_histories(ctx, rnd):
     out = sibling_histories(ctx.thorough, rnd) + rename_chain_histories(ctx.thorough, rnd)
     out += unreadable_histories(ctx.thorough, rnd)
+    out += rejection_histories(ctx.thorough, ctx.rng("rejection-histories"))
     out += [gen_named_history(rnd) for _ in range(ctx.pick(160, 2500))]
     return out
 
@@ -430,6 +493,19 @@ def _named_stats(hists, recs):
             d["scans_with_reuse"] += 1 if o[2] else 0
             d["scans_by_entry"][str(o[4])] = d["scans_by_entry"].get(str(o[4]), 0) + 1
     d["file_names"] = len(names_seen)
+    d["cache_rejection_by_name_class"] = {}
+    d["cache_rejection_reasons"] = {}
+    for h in hists:
+        if h["kind"] == "cache-rejection":
+            d["cache_rejection_by_name_class"][h["name_class"]] = d["cache_rejection_by_name_class"].get(h["name_class"], 0) + 1
+        for op in h["ops"]:
+            if op[0] == "cv":
+                k = "version class %s, keys %s" % (cr.VERS[op[1]], cr.KEY_SPELLINGS[op[3] % len(cr.KEY_SPELLINGS)])
+            elif op[0] == "cdmg":
+                k = "damaged: " + cr.DAMAGE_KINDS[op[1] % len(cr.DAMAGE_KINDS)]
+            else:
+                continue
+            d["cache_rejection_reasons"][k] = d["cache_rejection_reasons"].get(k, 0) + 1
     for fn, lang in lang_names():
         d["languages_by_name"][lang] = d["languages_by_name"].get(lang, 0) + 1
     return d
@@ -723,10 +799,11 @@ def correspond(ctx):
             ", ".join("%s %d" % kv for kv in sorted(kinds.items())), len(set(h["init"][-1][1] for h in repl)), nscans_extra, len(vg),
             json.dumps({k: sum(1 for c in vg if "(via %s)" % k in c[0]) for k in "012"}, sort_keys=True),
             len(lang_names()), len(nst["languages_by_name"]),
-            "%d sibling histories (a file stays byte-identical while a file of another language comes and goes in its folder, every name x every name of another language), %d rename / copy chains through all names (bytes kept across extensions, languages and folders), %d histories in which a file that was readable (regular or a symbolic link to a shared file outside the tree, cached or not) becomes UNREADABLE (%s) next to a file that stays, two scans, repaired (old / other content, deleted, excluded, renamed, re-linked), two scans - a from-scratch scan of such a tree may abort, then the scan with the cache has to abort the same way (equal outcomes: %d scans), otherwise the reports are equal, %d random histories (write, back-dated write, delete, rename, copy, link to a shared file, file made unreadable, nested .gitignore, exclusions, root named in %d ways - absolute, through a symbolic link, with `..`, `.`, relative, `../name`, relative through a link, with the matching working directory: %s -, configuration and observation point switched; canonically equivalent and awkward names)" % (
+            "%d sibling histories (a file stays byte-identical while a file of another language comes and goes in its folder, every name x every name of another language), %d rename / copy chains through all names (bytes kept across extensions, languages and folders), %d histories in which a file that was readable (regular or a symbolic link to a shared file outside the tree, cached or not) becomes UNREADABLE (%s) next to a file that stays, two scans, repaired (old / other content, deleted, excluded, renamed, re-linked), two scans - a from-scratch scan of such a tree may abort, then the scan with the cache has to abort the same way (equal outcomes: %d scans), otherwise the reports are equal, %d random histories (write, back-dated write, delete, rename, copy, link to a shared file, file made unreadable, nested .gitignore, exclusions, root named in %d ways - absolute, through a symbolic link, with `..`, `.`, relative, `../name`, relative through a link, with the matching working directory: %s -, configuration and observation point switched; canonically equivalent and awkward names; 6%% of the operations replace the cache by one of another version / damage it), %d CACHE-REJECTION histories: every reason for which a cache must not be used (written by another version - version key another release / absent / current + suffix / a number, EVERY entry measured differently with the checksums kept, file keys as written / with backslash separators / with a leading ./ - and damaged: %s) x every name class (%s), a file with a Pygments name in another folder and one in the root next to it: after each replacement a scan that must analyse every file and equal the from-scratch scan, then a scan that may reuse" % (
                 nst["histories"].get("siblings", 0), nst["histories"].get("rename-chain", 0), nst["histories"].get("unreadable", 0),
                 ", ".join(cr.UNREADABLE_KINDS) + ("; mode 000 has no effect for root and counts as a deleted target" if os.geteuid() == 0 else ""),
-                nst["scans_aborted_like_the_from_scratch_scan"], nst["histories"].get("random", 0), cr.SPELLINGS, json.dumps(nst["scans_by_root_spelling"], sort_keys=True)),
+                nst["scans_aborted_like_the_from_scratch_scan"], nst["histories"].get("random", 0), cr.SPELLINGS, json.dumps(nst["scans_by_root_spelling"], sort_keys=True),
+                nst["histories"].get("cache-rejection", 0), ", ".join(cr.DAMAGE_KINDS), json.dumps(nst["cache_rejection_by_name_class"], sort_keys=True)),
             nst["scans"], json.dumps(nst["scans_by_entry"], sort_keys=True)),
         "samples": [{"request": r["request"], "real_last_scan": str(r["real"][-1])} for r in (recs[5:7] + rrecs[:3] + xrecs[:2])],
         "exhaustive": True,
